@@ -267,7 +267,7 @@ class State:
         return out
 
     def kill_vars(self, vars_, keep_bounds=False):
-        vars_ = list(vars_)
+        vars_ = sorted(set(vars_), key=repr)
         if not vars_:
             return
         vs = set(vars_)
@@ -660,6 +660,8 @@ def join_states(a, b, widen=False, thresholds=(), templates=False, template_vars
             g[k] = (x or frozenset()) | (y or frozenset())
         elif x == y:
             g[k] = x
+        elif x in _STATUS_RANK and y in _STATUS_RANK:
+            g[k] = x if _STATUS_RANK[x] >= _STATUS_RANK[y] else y
         else:
             g[k] = None
     out.ghost = g
@@ -672,18 +674,21 @@ def join_states(a, b, widen=False, thresholds=(), templates=False, template_vars
     return out
 
 
+_STATUS_RANK = {"clean": 0, "restorable": 1, "appended": 2, "dirty": 3}
+
+
 def _heap_templates(a, b, extra_vars=()):
     """difference constraints x - y <= 0 between heap scalars that are related in both states:
     makes facts that are only *implied* on each side (e.g. filled <= cap) explicit so the join keeps them"""
-    va = {v for v in a.cons.all_vars() if v[0][0] == "H"}
-    vb = {v for v in b.cons.all_vars() if v[0][0] == "H"}
+    va = {v for v in a.cons.all_vars() if v[0][0] in ("H", "G")}
+    vb = {v for v in b.cons.all_vars() if v[0][0] in ("H", "G")}
     vs = sorted(va | vb, key=repr)
     if len(vs) > 8:
         vs = vs[:8]
     out = []
     for x in vs:
         for y in vs:
-            if x == y or x[0] != y[0]:
+            if x == y or (x[0] != y[0] and x[0][0] != "G" and y[0][0] != "G"):
                 continue
             out.append(LinForm({x: 1, y: -1}, 0))
     ev = [v for v in extra_vars if a.leaf(v) is not None and b.leaf(v) is not None][:10]
@@ -846,6 +851,9 @@ def state_leq(a, b):
         w = b.ghost.get(k)
         if isinstance(v, frozenset):
             if not (isinstance(w, frozenset) and v <= w):
+                return False
+        elif v in _STATUS_RANK and w in _STATUS_RANK:
+            if _STATUS_RANK[v] > _STATUS_RANK[w]:
                 return False
         elif w is not None and w != v:
             return False
